@@ -8,6 +8,7 @@ R2 rollback: the handler that undoes a partially built service catches every exc
    same peer set
 R3 uniqueness checks dominate the first insert (node sliver, top-level service sliver, backend add_node)
 R4 composite operations (>= 2 creation steps, later steps fed with derived data) need compensation - reported as findings
+R8 the graph-level link writer verifies every interface id (existence as ConnectionPoint) before inserting the Link node
 R7 a compensating handler addresses the created element by <element>.node_id, never by an optional id argument
 R6 a rollback handler that removes id X does not also guard the call that creates X (a refused creation would delete the
    element that already owns X)
@@ -19,6 +20,7 @@ from ..core import AnalysisError, norm, loc, walk_no_nested, attr_chain, call_na
 from ..cfg import CFG
 from ..normalize import inline, local_env, expand, ctext, canon
 from .. import nxgraph as nxg
+from .. import flow
 
 CONSTRUCTORS = ['fim.user.node:Node', 'fim.user.component:Component', 'fim.user.interface:Interface', 'fim.user.link:Link',
                 'fim.user.network_service:NetworkService']
@@ -395,6 +397,44 @@ def run(prog, rep):
                                       f'let the library generate the id: the rollback then removes nothing (or fails) and the partially built '
                                       f'element stays in the model')
 
+    # ---- R8: the graph-level link writer checks what it references before it inserts ----
+    rep.rule('R8', 'add_network_link_sliver verifies every interface id before the Link node is inserted', floor=1)
+    apg_ = prog.cls('fim.graph.abc_property_graph:ABCPropertyGraph')
+    lw0 = apg_.methods.get('add_network_link_sliver')
+    if lw0 is None:
+        raise AnalysisError('add_network_link_sliver vanished')
+    lw = inline(prog, apg_, lw0)
+    lcfg = CFG(lw)
+    ldom = lcfg.dominators()
+    ins_ = [c for c in walk_no_nested(lw) if isinstance(c, ast.Call) and call_name(c) == 'add_node']
+    iparam_ = 'interfaces'
+    chk_loops = []
+    for l in walk_no_nested(lw):
+        if isinstance(l, ast.For) and isinstance(l.iter, ast.Name) and l.iter.id == iparam_ and isinstance(l.target, ast.Name) and \
+                any(isinstance(c, ast.Call) and call_name(c) in ('node_exists', '_find_node', 'get_node_properties') and
+                    any(isinstance(x, ast.Name) and x.id == l.target.id for x in ast.walk(c)) for c in ast.walk(l)) and \
+                any(isinstance(x, ast.Raise) for x in ast.walk(l)) and not any(isinstance(c, ast.Call) and call_name(c) in ('add_link', 'add_node') for c in ast.walk(l)):
+            chk_loops.append(l)
+    all_checks = [c for c in walk_no_nested(lw) if isinstance(c, ast.Call) and isinstance(c.func, ast.Name) and c.func.id in ('all', 'any') and
+                  any(isinstance(x, ast.Call) and call_name(x) == 'node_exists' for x in ast.walk(c))]
+    okl = False
+    if ins_:
+        inode = flow.node_of(lcfg, ins_[0])
+        for l in chk_loops:
+            hn = [nd for nd in lcfg.nodes if nd.kind == 'test' and nd.tag == 'for' and nd.ast is l]
+            if hn and inode is not None and hn[0].id in ldom.get(inode.id, set()):
+                okl = True
+        for c in all_checks:
+            cn_ = flow.node_of(lcfg, c)
+            if cn_ is not None and inode is not None and cn_.id in ldom.get(inode.id, set()):
+                okl = True
+    rep.instance('R8', f'add_network_link_sliver: interface ids verified before the insert: {okl}')
+    if not okl:
+        rep.violation('R8', loc(apg_.module, lw0), 'ABCPropertyGraph.add_network_link_sliver', 'interface ids not verified before the Link node is inserted',
+                      'the Link node is inserted and then connected interface by interface: an id that is not a ConnectionPoint of this graph '
+                      '(an interface of another topology, a stale handle) makes add_link raise after the Link node and the edges to the '
+                      'earlier interfaces were added - the rejected call leaves a dangling Link in the model')
+
     # ---- R3 ----
     apg = prog.cls('fim.graph.abc_property_graph:ABCPropertyGraph')
     for name, cond in (('add_network_node_sliver', None), ('add_network_service_sliver', 'parent_node_id is None')):
@@ -553,6 +593,9 @@ MUTANTS = [
     {'name': 'node-uniqueness-check-after-insert', 'file': 'fim/graph/abc_property_graph.py', 'rule': 'R3',
      'find': "        if not self.check_node_unique(label=ABCPropertyGraph.CLASS_NetworkNode,\n                                      name=sliver.resource_name):\n            raise PropertyGraphQueryException(msg=f'Node name {sliver.resource_name} must be unique.',\n                                              graph_id=self.graph_id, node_id=None)\n\n        props = self.node_sliver_to_graph_properties_dict(sliver)\n        self.add_node(node_id=sliver.node_id, label=ABCPropertyGraph.CLASS_NetworkNode, props=props)",
      'replace': "        props = self.node_sliver_to_graph_properties_dict(sliver)\n        self.add_node(node_id=sliver.node_id, label=ABCPropertyGraph.CLASS_NetworkNode, props=props)"},
+    {'name': 'link-writer-unchecked-references', 'file': 'fim/graph/abc_property_graph.py', 'rule': 'R8',
+     'find': "        for i in interfaces:\n            if not self.node_exists(node_id=i, label=ABCPropertyGraph.CLASS_ConnectionPoint):\n                raise PropertyGraphQueryException(graph_id=self.graph_id, node_id=i,\n                                                  msg=\"Unable to add link - it can only connect ConnectionPoints of this graph\")\n",
+     'replace': ''},
 ]
 TWINS = [
     {'name': 'independent-validations-reordered', 'file': 'fim/user/node.py',
